@@ -123,7 +123,7 @@ CHECKS = {
         "call_kernel, DataMixin._calc_theory (background added after smearing, 0 for sesans) and bumps create_parameters are "
         "executed symbolically; 'unknown name => TypeError, nothing else raises', 'exactly the parameter's own keys are consumed', "
         "'orientation inactive in 1-D', 'theory = apply(kernel at background 0) + background' and the frames are discharged by z3.",
-   note="[also under contract: SasviewModel.setParam (26 legal/illegal names: exactly the entry is set, unknown or misspelt names raise and leave no stray key) and the Iq/Iqxy convenience functions (q and resolution arguments reach the documented slots of the data object)] weights.get_weights, make_kernel_args, the kernel and resolution.apply replaced by their contracts; bumps Parameter is a "
+   note="[also under contract: SasviewModel.setParam (26 legal/illegal names: exactly the entry is set, unknown or misspelt names raise and leave no stray key), SasviewModel.set_dispersion (only dispersible names accepted; others raise and add no entry) and the Iq/Iqxy convenience functions (q and resolution arguments reach the documented slots of the data object)] weights.get_weights, make_kernel_args, the kernel and resolution.apply replaced by their contracts; bumps Parameter is a "
         "stub contract (bumps is not installed); SasviewModel object plumbing and numerical equality of the interfaces end to end "
         "are not under contract (only the shared mesh/theory functions are)",
    technique=TECH + "Python AST -> VCs -> z3 with finite-map inputs; witnesses replayed on get_mesh/_pop_par_weights",
